@@ -87,8 +87,9 @@ def run(ctx):
     try:
         mod = "c2w_%d" % os.getpid()
         src = ("import dds\nimport pathlib\nimport datetime\nfrom ddsverif_rt import log, term\n\n"
-               "RAW = pathlib.Path('data/raw.csv')\nHERE = pathlib.Path('.')\nABS = pathlib.Path('/abs/x.csv')\nDAY = datetime.date(2021, 3, 1)\nN = 3\n\n"
-               "def source():\n    log('source')\n    return term('source', str(RAW), str(HERE))\n\n"
+               "RAW = pathlib.Path('data/raw.csv')\nHERE = pathlib.Path('.')\nABS = pathlib.Path('/abs/x.csv')\nDAY = datetime.date(2021, 3, 1)\nN = 3\n"
+               "STOP = frozenset({'the', 'a', 'of', 'and', 'to', 'in'})\nNA = {'', 'NA', 'null', None, 'n/a'}\n\n"
+               "def source():\n    log('source')\n    return term('source', str(RAW), str(HERE), str(sorted(STOP)), str(sorted(map(str, NA))))\n\n"
                "def other():\n    log('other')\n    return term('other', str(ABS), str(DAY), N)\n\n"
                "def summary():\n    log('summary')\n    return term('summary', dds.keep('/w/source', source), dds.keep('/w/other', other))\n\n"
                "def f0():\n    log('f0')\n    return dds.keep('/w/summary', summary)\n")
@@ -103,7 +104,8 @@ def run(ctx):
         entry = {"kind": "eval", "fun": "f0"}
         first = None
         for ci, c in enumerate(cwds):
-            wk = pipeline.WorkerProc("real", cwd=c)
+            # (each process also has its own hash seed: the iteration order of sets differs between them)
+            wk = pipeline.WorkerProc("real", cwd=c, env={"PYTHONHASHSEED": str(11 + 7 * ci)})
             try:
                 wk.call(cmd="store_api", internal_dir=os.path.join(base, "si"), data_dir=os.path.join(base, "sd"), cache_objects=None)
                 wk.call(cmd="world", dir=os.path.join(base, "code"), module=mod, extmod="c2e_none")
